@@ -211,7 +211,7 @@ def check_proofs(pid, thorough):
             res["detail"] = out[-6000:]
             # map error lines in the property file to theorems; any other failing module fails all
             rel = os.path.relpath(path, LEAN)
-            err_lines = [int(m.group(1)) for m in re.finditer(re.escape(rel) + r":(\d+):\d+", out) ]
+            err_lines = [int(m.group(1)) for m in re.finditer(r"error: " + re.escape(rel) + r":(\d+):\d+", out)]
             other = re.findall(r"error: (Firebolt/[A-Za-z0-9_/]+\.lean|Driver/[A-Za-z0-9_/]+\.lean):", out)
             other = [o for o in other if o != rel]
             if other or not err_lines:
@@ -566,6 +566,10 @@ def check(pid, tier):
         broken.append(("crash", [c["component"] + ": " + c["detail"][-800:] for c in stats["crashes"][:3]]))
 
     if unknown_specs:
+        # prefer a witness whose clause is not the clause of a listed finding (those are reported only because the model
+        # disagrees with the code on the same case); generated cases keep their order otherwise
+        known_clauses = {c for f in findings if f.get("status") == "known" and f["property"] == pid for c in f.get("clauses", [])}
+        unknown_specs.sort(key=lambda cv: cv[1]["clause"] in known_clauses)
         comp, v = unknown_specs[0]
         try:
             if comp in [c for c, _, _ in prop["components"]] and prop.get("shrink", True):
